@@ -37,6 +37,7 @@ macro_rules
     | exact R_newString _ _
     | exact R_expectBlockIndent _
     | exact R_tryConsume _ _ _
+    | exact R_swallowAll _ _ _
     | exact R_consume _ _ _ _
     | exact R_parseID _ _ _
     | exact R_optYield _ _ _
